@@ -2,17 +2,20 @@
 from propcommon import COMMON_MODELLED
 PROP = dict(
         gotest="TestC07",
+        translator="arithC07",
+        extra_props=["ArithTieC07"],
         extra_gotests=[("TestZdec", "Zdec")],
         model="coq/Models/Stable.v (exact: GetRedemptionRate, Bond, Unbond, Borrow with the 90% cap, Repay, UpdateInterestStacked; "
               "interest amounts and non-vault wallet movements are implementation-resolved choices)",
-        coq_deps=["Base/", "Models/Stable.v", "Proofs/StableProofs.v", "Run/StableRun.v", "Run/ZdecRun.v", "Props/C07.v"],
+        coq_deps=["Base/", "Models/Stable.v", "Proofs/StableProofs.v", "Run/StableRun.v", "Run/ZdecRun.v", "Props/C07.v", "Generated/ArithC07.v", "Proofs/ArithTieTac.v", "Proofs/ArithTieC07.v", "Props/ArithTieC07.v"],
         rule="histories of 30-55 ops on a fresh real app each (market fixture, funded vault): bond/unbond/round-trips by 6 lenders "
              "(amounts: 1, 2..20, rate-adversarial (k+1/2)*rate-1/0/+1, k*rate, per-decade 1..1e12, wallet/3, wallet-1, wallet, wallet+1; "
              "own shares 1/3, all-1, all, all+1; shares that drain the vault's cash -1/0/+1), a quarter of the histories with 1e20..1e33 uusdc per user; "
              "keeper Borrow at the cap headroom -1/0/+1, Repay at interest-1/0/+1 and all-1/0/+1, interest accrual; real leveragelp MsgOpen/MsgClose; "
              "blocks of 5 s .. 30 days so that the rate is non-integral from the third op on; 10 uncommitted round-trip probes per probe op; "
              "distinct = distinct (op,result,account) sequence; non-trivial = at least one successful vault operation",
-        trusted_base=["interest amounts (GetInterest) are taken from the implementation as op parameters; the model only requires them >= 0",
+        trusted_base=["tools/gotrans arith (Go AST + go/types -> Gallina over Base/Zdec.v): the method table of coq/Generated/ARITH_README.md (Int/LegacyDec method -> Zdec function, validated by TestZdec); what the opaque readers of a translated function return is covered by the correspondence run only",
+                      "interest amounts (GetInterest) are taken from the implementation as op parameters; the model only requires them >= 0",
                       "TotalValue - module balance equals the real loans only if C06 holds (direct transfers to the module account are not generated here)",
                       "Int/LegacyDec overflow panics (|x| >= 2^256) are not modelled"],
         modelled="x/stablestake msg_server_bond/unbond, params.go GetRedemptionRate, debt.go Borrow/Repay/UpdateInterestStacked as Gallina functions over Z "
